@@ -53,6 +53,17 @@ CLAIMS["C13"] = dict(
          "outside are not modelled.",
     technique="class x field exhaustiveness matrix + visit-site model (flags, order vs printer, store-back taint)")
 
+CLAIMS["C12"] = dict(
+    level="other", engine="pyflow",
+    text="Binding order is the visiting order of the walker, so textual order / exactly-once / completeness are decided by "
+         "the C13 walker matrix (every child field visited once, in printer order, stored back in place) re-evaluated here, "
+         "plus structural rules on the two callbacks (one traversal over the whole statement, prune only at Parameter leaves, "
+         "FIFO consumption from a private copy, Constant substitution) and a must-pass-through dataflow rule: the value-count "
+         "test dominates fill_query_params and its mismatch branch raises PlanningException; prepare/execute use the same "
+         "stored statement; one reported parameter per placeholder. Does not decide plan equality with inline literals.",
+    note="Assumes C13's child-field derivation; planner behaviour on the filled statement is not analysed.",
+    technique="walker visit-order/completeness matrix + dominance (dataflow) of the count check + callback shape rules")
+
 NA_PENDING = "check under construction in this session; not claimed until its rule module is committed"
 
 
